@@ -400,3 +400,89 @@ row("load_unaligned", "P", "B", prop="C04")(_load(False))
 for _k in ("PB", "BP"):
     row("store_aligned", _k, "V", prop="C04")(_store(True))
     row("store_unaligned", _k, "V", prop="C04")(_store(False))
+
+
+# ---- C06: conversions ------------------------------------------------------------------------------------------------------------
+from .sig import PType
+
+
+def conv_expr(src, dst, a):
+    """C expression for static_cast<dst>(value with bit pattern a of type src), as a bit pattern of dst"""
+    ks, kd = TYPES[src][3], TYPES[dst][3]
+    ws, wd = TYPES[src][2], TYPES[dst][2]
+    if ks != "f" and kd != "f":
+        v = "(s%d)%s" % (ws, a) if ks == "s" else a
+        return "((u%d)%s)" % (wd, v)
+    if ks != "f" and kd == "f":
+        v = "(s%d)%s" % (ws, a) if ks == "s" else a
+        return "F2U%d((f%d)%s)" % (wd, wd, v)
+    if ks == "f" and kd != "f":
+        x = "U2F%d(%s)" % (ws, a)
+        return "((u%d)(s%d)%s)" % (wd, wd, x) if kd == "s" else "((u%d)%s)" % (wd, x)
+    return "F2U%d((f%d)U2F%d(%s))" % (wd, wd, ws, a)
+
+
+def conv_pre(src, dst, a):
+    """source value representable in the destination (only float -> integer needs it)"""
+    if TYPES[src][3] == "f" and TYPES[dst][3] != "f":
+        x = "U2F%d(%s)" % (TYPES[src][2], a)
+        wd = TYPES[dst][2]
+        if TYPES[dst][3] == "s":
+            return "(%s == %s && %s > -0x1p%d - 1.0 && %s < 0x1p%d)" % (x, x, x, wd - 1, x, wd - 1)
+        return "(%s == %s && %s > -1.0 && %s < 0x1p%d)" % (x, x, x, x, wd)
+    return None
+
+
+def _dst_tid(ctx):
+    if len(ctx.args) >= 2 and ctx.args[1].kind == "B":
+        return ctx.args[1].tid
+    if ctx.fn.sig.ret:
+        p = PType(ctx.fn.sig.ret)
+        if p.tid:
+            return p.tid
+    raise Unsupported("destination type of conversion unknown")
+
+
+def _cast(kind):
+    def build(ctx):
+        src = ctx.tid
+        dst = {"to_int": {"f32": "i32", "f64": "i64"}, "to_float": {"i32": "f32", "i64": "f64"}}.get(kind, {}).get(src) or _dst_tid(ctx)
+        if TYPES[src][2] != TYPES[dst][2]:
+            raise Unsupported("conversion between different widths")
+        R = ctx.ret = bind_ret(ctx, "B", tid=dst)
+        a = ctx.args[0]
+        ens = []
+        for i in range(ctx.n):
+            x = a.lane(i)
+            if kind == "bitwise_cast":
+                ens.append("(%s == %s)" % (R.lane(i), x))
+            else:
+                pre = conv_pre(src, dst, x)
+                if pre:
+                    ctx.requires.append(pre)
+                ens.append("(%s == %s)" % (R.lane(i), conv_expr(src, dst, x)))
+        ctx.ensures += conj(ens)
+        ctx.uses_float = True
+    return build
+
+
+for _k in ("B", "BB"):
+    # emulated conversions convert out-of-range lanes with the hardware's defined "integer indefinite" result and discard them:
+    # nested batch_cast calls are inlined (their contracts only speak of representable values)
+    row("batch_cast", _k, "B", prop="C06", inline_ops=("batch_cast",))(_cast("batch_cast"))
+    row("bitwise_cast", _k, "B", prop="C06")(_cast("bitwise_cast"))
+row("to_int", "B", "B", types=FLOAT_TYPES, prop="C06")(_cast("to_int"))
+row("to_float", "B", "B", types=["i32", "i64"], prop="C06")(_cast("to_float"))
+
+
+@row("nearbyint_as_int", "B", "B", types=FLOAT_TYPES, prop="C08")
+def _nbi(ctx):
+    dst = {"f32": "i32", "f64": "i64"}[ctx.tid]
+    R = ctx.ret = bind_ret(ctx, "B", tid=dst)
+    a = ctx.args[0]
+    ens = []
+    for i in range(ctx.n):
+        r = ctx.spec("nearbyint", a.lane(i))
+        ctx.requires.append(conv_pre(ctx.tid, dst, r))
+        ens.append("(%s == %s)" % (R.lane(i), conv_expr(ctx.tid, dst, r)))
+    ctx.ensures += conj(ens)
